@@ -117,6 +117,8 @@ def seeds():
   # paragraphs with their own text alignment (what the WebVTT writer's text_align option writes out)
   S.append(doc_spec(_body(_p("p1", "a", F(1), F(2), "r1", st={"TextAlign": E("TextAlignType", "end")}),
                           _p("p2", "b", F(2), F(3), "r1", st={"TextAlign": E("TextAlignType", "center")})), [{"id": "r1"}]))
+  # begin and end times that binary floating point cannot represent (3/10, 7/10, 11/10): snapshots taken exactly at them
+  S.append(doc_spec(_body(_p("p1", "a", F(3, 10), F(7, 10), "r1"), _p("p2", "b", F(7, 10), F(11, 10), "r2")), [{"id": "r1", "st": {"ShowBackground": E("ShowBackgroundType", "whenActive")}}, {"id": "r2", "st": {"BackgroundColor": TRANSP}}]))
   return S
 
 
@@ -302,6 +304,13 @@ def _state_check(history):
       if a != b:
         viol.append(("C14.cached-equals-uncached", _cache_disc(a, b), dict(case, t=t), _summ(a), _summ(b),
                      f"ISD.from_model(doc, {t}, sig) does not render like ISD.from_model(doc, {t})"))
+        break
+      # the same significant times wrapped in an object built with the public constructor (its document cache is optional)
+      from ttconv.isd import SignificantTimes
+      c = fp_isd_render(ISD.from_model(doc, t, SignificantTimes(list(st["sig"]))))
+      if c != b:
+        viol.append(("C14.cached-equals-uncached", "hand-built-significant-times," + _cache_disc(c, b), dict(case, t=t), _summ(c), _summ(b),
+                     f"ISD.from_model(doc, {t}, SignificantTimes(offsets)) does not render like ISD.from_model(doc, {t})"))
         break
   return viol, probes, _enabled(st)
 
